@@ -169,6 +169,17 @@ def _labels_from_report(r):
     return r.get("_labels", [])
 
 
+def evidence_dir():
+    """evidence/<id>.json is rewritten by the registered commands only; experiments (another work
+    directory, a scratch repository, a harness subset) write theirs next to their scratch files"""
+    if os.environ.get("VERIF_WORK") or os.environ.get("VERIF_REPO") or "--only" in sys.argv:
+        d = os.path.join(kani.WORK, "evidence")
+    else:
+        d = os.path.join(VERIF, "evidence")
+    os.makedirs(d, exist_ok=True)
+    return d
+
+
 def write_evidence(prop, spec, tier, seed, results, wall, violations=0, known=(), build_s=0.0, note=""):
     ok = [r for r in results if r["verdict"] == "ok"]
     checks = sum((r.get("checks") or 0) for r in results)
@@ -215,7 +226,7 @@ def write_evidence(prop, spec, tier, seed, results, wall, violations=0, known=()
         "wall_s": round(wall, 1),
         "violations": violations,
     }
-    with open(os.path.join(VERIF, "evidence", "%s.json" % prop), "w") as f:
+    with open(os.path.join(evidence_dir(), "%s.json" % prop), "w") as f:
         json.dump(ev, f, indent=1)
 
 
